@@ -264,6 +264,12 @@ impl<'a, 'ast> Visit<'ast> for V<'a> {
                     return;
                 }
             }
+            if ids.len() >= 2 && ids[0] == "crate" {
+                // crate::module::Type<..>: the generated file has a flat namespace
+                let last_lo = rng(tp.path.segments.last().unwrap()).0;
+                self.ed.replace(lo, last_lo, String::new(), "path-prefix-dropped");
+                return;
+            }
             let key = ids.join("::");
             let plain = tp.path.segments.iter().all(|s| s.arguments.is_none());
             if plain {
